@@ -250,7 +250,9 @@ func (s *Subscription) setResource() {
 // and all its referenced resources recursively, has been loaded from the rescache.
 // If the resource is already ready, the callback will directly be called.
 func (s *Subscription) OnReady(cb func()) {
-	if s.IsReady() {
+	// A ready subscription queueing events, as one of its events awaits a new
+	// reference being loaded, is not to be considered ready.
+	if s.IsReady() && s.queueFlag&queueReasonReference == 0 {
 		cb()
 		return
 	}
